@@ -8,7 +8,7 @@ Trace == ndJsonDeserialize(IOEnv.TRACE_FILE)
 VARIABLES l, bad
 
 Verdict(e) ==
-    LET ex == Expected(e) IN
+    LET ex == ErsatzExpected(e) IN
     IF ~e.same THEN "a caller's tensor was modified"
     ELSE IF ex.zone = "reject" /\ e.st # "err" THEN "accepted a position/span that is not wholly inside the sequence (or a mis-sized motif batch)"
     ELSE IF ex.zone = "accept" /\ e.st # "ok" THEN "rejected a call whose span lies wholly inside the sequence"
